@@ -24,6 +24,10 @@ func MarshalString(g orb.Geometry) string {
 }
 
 func wkt(buf *bytes.Buffer, geom orb.Geometry) {
+	if geom == nil {
+		return
+	}
+
 	switch g := geom.(type) {
 	case orb.Point:
 		fmt.Fprintf(buf, "POINT(%g %g)", g[0], g[1])
